@@ -83,3 +83,36 @@ Example C20_nonvacuous :
     [LPubStart 0; LPersistStart 0; LAppend 0; LPersistDone 0 true; LHandlerStart 0 false; LEnter 0 0 CtxBg;
      LHandlerDone 0 true; LHandlerStart 0 false; LEnter 0 1 CtxBg; LHandlerDone 0 false; LPubDone 0].
 Proof. vm_compute. auto. Qed.
+
+(* ---- the OpenTelemetry adapter (Otel/OtelModel.v): a consumer of the callback trace ---- *)
+From Ebu Require Import Otel.OtelModel Otel.OtelProofs.
+
+(* for every callback trace in which each span key is started once and completed exactly once, never before its
+   start - which is what the theorems above say of the bus's callbacks - every span the adapter starts is ended
+   exactly once *)
+Theorem C20_otel_every_span_ended_once : forall t, paired t = true -> forall s, In s (spans (orun t)) -> s_ended s = 1.
+Proof. exact every_span_ended_once. Qed.
+Print Assumptions C20_otel_every_span_ended_once.
+
+(* a span's parent is the span carried by the context its start callback received: handler and persist spans, whose
+   start callbacks receive the publish context, are children of the publish span *)
+Theorem C20_otel_parent_is_incoming_span : forall t1 key k parent t2,
+  exists s, In s (spans (orun (t1 ++ Start key k parent :: t2))) /\ s_key s = key /\ s_kind s = k /\ s_parent s = parent.
+Proof. exact parent_is_the_incoming_span. Qed.
+Print Assumptions C20_otel_parent_is_incoming_span.
+
+(* the counters equal the true numbers of publishes, handler runs, persist attempts ... *)
+Theorem C20_otel_counters : forall t,
+  let st := orun t in
+  n_pub st = count (is_kind_start (fun k => match k with KPub => true | _ => false end)) t /\
+  n_handler_sync st = count (is_kind_start (fun k => match k with KHandler false => true | _ => false end)) t /\
+  n_handler_async st = count (is_kind_start (fun k => match k with KHandler true => true | _ => false end)) t /\
+  n_persist st = count (is_kind_start (fun k => match k with KPersist => true | _ => false end)) t.
+Proof. exact counters_are_the_true_numbers. Qed.
+Print Assumptions C20_otel_counters.
+
+(* ... and of handler panics and persist failures: one per complete callback that carries an error *)
+Theorem C20_otel_error_counters : forall t,
+  n_handler_err (orun t) = err_count true [] t /\ n_persist_err (orun t) = err_count false [] t.
+Proof. exact error_counters_are_the_true_numbers. Qed.
+Print Assumptions C20_otel_error_counters.
